@@ -40,9 +40,18 @@ def w_density(case):
     # neither modify them nor depend on what was evaluated before.
     a_par, a_ybar, a_y, a_S = params.copy(), ybar.copy(), y.copy(), S.copy()
     if case.get('ints'):
-        # whole-number arguments handed over as integer arrays
-        a_par, a_ybar, a_y, a_S = [a.astype(int) for a in (a_par, a_ybar, a_y, a_S)]
-        params, ybar, y, S = [a.astype(float) for a in (a_par, a_ybar, a_y, a_S)]
+        # whole-number arguments handed over as integer arrays (all of them, or the
+        # ones named in 'int_args' while the others hold generic floats; 'as_list':
+        # as plain Python lists)
+        which = case.get('int_args') or ['par', 'ybar', 'y', 'S']
+        args = {'par': a_par, 'ybar': a_ybar, 'y': a_y, 'S': a_S}
+        for k_ in which:
+            args[k_] = args[k_].astype(int)
+        if case.get('as_list'):
+            args = {k_: v_.tolist() for k_, v_ in args.items()}
+        a_par, a_ybar, a_y, a_S = [args[k_] for k_ in ('par', 'ybar', 'y', 'S')]
+        params, ybar, y, S = [np.asarray(a, dtype=float)
+                              for a in (a_par, a_ybar, a_y, a_S)]
     # total
     got_tot = em.compute_log_likelihood(a_par, a_ybar, a_y)
     n_tr += 1
@@ -78,6 +87,23 @@ def w_density(case):
             'sub': 'repeat', 'message': 'log-likelihood differs when evaluated '
             'again after compute_sensitivities on the same arrays',
             'expected': got_tot, 'observed': again, 'behaviour': 'repeat'})
+    # results handed out earlier stay what they were when the model is evaluated
+    # again on arrays of the same shape
+    if np.isfinite(exp_tot) and not case.get('ints'):
+        kept_pw = em.compute_pointwise_ll(params.copy(), ybar.copy(), y.copy())
+        kept_s = em.compute_sensitivities(params.copy(), ybar.copy(), S.copy(),
+                                          y.copy())[1]
+        snap = [np.array(kept_pw, dtype=float), np.array(kept_s, dtype=float)]
+        em.compute_pointwise_ll(params * 1.2, ybar * 0.9, y * 1.1)
+        em.compute_sensitivities(params * 1.2, ybar * 0.9, S.copy(), y * 1.1)
+        em.compute_log_likelihood(params * 1.2, ybar * 0.9, y * 1.1)
+        n_tr += 5
+        if not (np.array_equal(np.asarray(kept_pw, dtype=float), snap[0])
+                and np.array_equal(np.asarray(kept_s, dtype=float), snap[1])):
+            viol.append({'sub': 'retained', 'message': 'pointwise values / '
+                         'sensitivities handed out earlier changed when the error '
+                         'model was evaluated again', 'expected': snap,
+                         'observed': [kept_pw, kept_s], 'behaviour': 'retained'})
     # ... and the caller modifies those arrays in place before evaluating again
     if np.isfinite(exp_tot) and not case.get('ints'):
         b_par, b_ybar, b_y = params.copy(), ybar.copy(), y.copy()
@@ -377,6 +403,25 @@ def build(tier, seed):
                                 'model': model, 'ybar': list(ybar_i),
                                 'y': list(y_i), 'params': list(par), 'p': p,
                                 'sens': [1, -2, 3, 1, 2, -1][:n * p], 'ints': True})
+    # every proper subset of the arguments integer-typed, the others generic floats
+    names_ = ['par', 'ybar', 'y', 'S']
+    for model in ref.MODELS:
+        for n in (1, 3):
+            for r_ in (1, 2, 3):
+                for sub in itertools.combinations(names_, r_):
+                    for as_list in (False, True):
+                        np_ = ref.N_PARAMS[model]
+                        cases.append({
+                            'model': model, 'p': 2, 'ints': True,
+                            'int_args': list(sub), 'as_list': as_list,
+                            'params': [1, 2][:np_] if 'par' in sub else
+                            [0.7, 0.35][:np_],
+                            'ybar': [2, 1, 4][:n] if 'ybar' in sub else
+                            [1.7, 0.9, 3.6][:n],
+                            'y': [1, 3, 5][:n] if 'y' in sub else
+                            [1.45, 2.8, 4.3][:n],
+                            'sens': [1, -2, 3, 1, 2, -1][:n * 2] if 'S' in sub else
+                            [0.6, -1.3, 2.2, 0.4, 1.7, -0.8][:n * 2]})
     norm_cases = []
     for model in ref.MODELS:
         for params in itertools.product(*scale[model]):
